@@ -483,6 +483,15 @@ func TestC10(t *testing.T) {
 					ops = append(ops, nodeOp{false, b})
 				}
 			}
+			// up again: a node that reached its class by shrinking receives new children
+			// (and removed ones come back), below, between and above the survivors
+			if again := pick(rt, []int{0, 1, 2, 5, 12, 30}, "again"); again > 0 {
+				start := drawInt(rt, 0, 255, "againfirst")
+				step := pick(rt, []int{1, 7, 255}, "againstep")
+				for i := 0; i < again; i++ {
+					ops = append(ops, nodeOp{true, byte(start + i*step)})
+				}
+			}
 		} else {
 			n := drawInt(rt, 1, 120, "nops")
 			for i := 0; i < n; i++ {
